@@ -137,6 +137,8 @@ const prelude = `(set-option :produce-models true)
 (define-fun imax ((a Int) (b Int)) Int (ite (>= a b) a b))
 (define-fun rtrunc ((x Real)) Int (ite (>= x 0.0) (to_int x) (- (to_int (- x)))))
 (define-fun rabs ((x Real)) Real (ite (>= x 0.0) x (- x)))
+(declare-fun ea (Int Int) Int)
+(assert (forall ((b Int) (i Int)) (! (= (ea b i) (+ b i)) :pattern ((ea b i)))))
 `
 
 type structInfo struct {
